@@ -34,9 +34,22 @@ import (
 
 var caseSeq int
 
+// newBase returns a never-used scratch root; the name starts with the top-level process id so that the
+// parent can sweep what killed workers leave behind.
 func newBase(tag string) string {
 	caseSeq++
-	return fmt.Sprintf("/dev/shm/c27_%d_%s_%d", os.Getpid(), tag, caseSeq)
+	top := os.Getenv("C27_TOP")
+	if top == "" {
+		top = fmt.Sprint(os.Getpid())
+	}
+	return fmt.Sprintf("/dev/shm/c27_%s_%d_%s_%d", top, os.Getpid(), tag, caseSeq)
+}
+
+func sweepScratch() {
+	ms, _ := filepath.Glob(fmt.Sprintf("/dev/shm/c27_%d_*", os.Getpid()))
+	for _, d := range ms {
+		os.RemoveAll(d)
+	}
 }
 
 type proc struct {
@@ -141,6 +154,8 @@ func opClass(desc string) string {
 		kind = "basefolder"
 	case strings.HasSuffix(base, ".reg"):
 		kind = "registry-segment"
+	case strings.HasSuffix(base, ".cow"):
+		kind = "registry-cow-file"
 	case strings.HasSuffix(base, ".txt"):
 		kind = base
 	case strings.HasSuffix(base, "_r"):
@@ -636,16 +651,16 @@ func buildDomain(thorough bool) domain {
 	cfgs := []cfg{{2, true}, {2, false}, {4, true}, {4, false}}
 	al := alphabet([]string{"S1", "S2"}, cfgs)
 	if !thorough {
-		return domain{hist: histories(al, 3, true, true), variants: []variant{{"fresh", 0, false}, {"same", 2, false}},
-			desc: "all histories of 1..3 enabled steps over the alphabet {create(S,slot in {2,4},value in node|separate segment), add(S): commit 5 fresh keys, updrem(S): commit updating every 3rd+1 and removing every 3rd item, remove(S): RemoveBtree} for S in {S1,S2}; the first created store is S1 (name symmetry) and S2 is created only with the configuration complementary to the first step's (other slot length and other value placement)"}
+		return domain{hist: histories(al, 3, true, true, []cfg{{2, true}, {4, false}}), variants: []variant{{"fresh", 0, false}, {"same", 2, false}},
+			desc: "all histories of 1..3 enabled steps over the alphabet {create(S,slot in {2,4},value in node|separate segment), add(S): commit 5 fresh keys, updrem(S): commit updating every 3rd+1 and removing every 3rd item, remove(S): RemoveBtree} for S in {S1,S2}; the first step is create(S1,slot2,node) or create(S1,slot4,segment) (S1 first: name symmetry), S2 is created only with the configuration complementary to the first step's (other slot length and other value placement), a removed S1 is re-created with any of the 4 configurations"}
 	}
 	vs := []variant{{"fresh", 0, false}, {"same", 2, false}, {"fresh", 2, false}, {"same", 0, false}, {"fresh", 1, false}, {"fresh", 0, true}, {"same", 2, true}}
-	hist := histories(al, 3, true, false)
+	hist := histories(al, 3, true, false, nil)
 	seen := map[string]bool{}
 	for _, h := range hist {
 		seen[histString(h)] = true
 	}
-	for _, h := range histories(al, 4, true, true) {
+	for _, h := range histories(al, 4, true, true, nil) {
 		if !seen[histString(h)] {
 			hist = append(hist, h)
 		}
@@ -661,26 +676,51 @@ func main() {
 	}
 	run := ev.New("C27", "fault_enumeration")
 	dom := buildDomain(run.Thorough())
+	for i, a := range os.Args {
+		if a == "--replay" && i+1 < len(os.Args) && ev.Job() == "" {
+			replayFile(run, dom, os.Args[i+1])
+		}
+	}
 	if len(os.Args) > 2 && os.Args[1] == "debug" {
 		debugMain(run, dom)
 		return
 	}
-	const batch = 4
+	opsFile := fmt.Sprintf("/dev/shm/c27_%d_ops.json", os.Getpid())
+	if f := os.Getenv("C27_OPSFILE"); f != "" {
+		opsFile = f
+	}
+	const batchA, chunkK = 2, 3
 	if job := ev.Job(); job != "" {
-		var lo int
-		fmt.Sscan(job, &lo)
 		c := &checker{run: run, thorough: run.Thorough()}
-		for hi := lo; hi < lo+batch && hi < len(dom.hist); hi++ {
-			c.history(dom, dom.hist[hi])
+		var lo, hiK, hIdx int
+		switch {
+		case strings.HasPrefix(job, "A:"):
+			// phase 1: Part A for a batch of histories; the passive-operation lists go back to the parent
+			fmt.Sscanf(job, "A:%d", &lo)
+			for hi := lo; hi < lo+batchA && hi < len(dom.hist); hi++ {
+				if ops := c.historyA(dom.hist[hi]); len(ops) > 0 {
+					run.Set(fmt.Sprintf("ops_%d", hi), ops)
+				}
+			}
+		case strings.HasPrefix(job, "B:"):
+			// phase 2: Part B/C for fault positions lo..hiK-1 of one history
+			fmt.Sscanf(job, "B:%d:%d:%d", &hIdx, &lo, &hiK)
+			all := map[string][]string{}
+			b, err := os.ReadFile(opsFile)
+			if err == nil {
+				err = json.Unmarshal(b, &all)
+			}
+			ops := all[fmt.Sprint(hIdx)]
+			if err != nil || len(ops) < hiK {
+				fmt.Fprintln(os.Stderr, "cannot read the reference operations:", err)
+				os.Exit(3)
+			}
+			c.historyBC(dom, dom.hist[hIdx], ops, lo, hiK)
 		}
 		run.EmitPartial()
 	}
-	var jobs []string
-	for i := 0; i < len(dom.hist); i += batch {
-		jobs = append(jobs, fmt.Sprint(i))
-	}
 	dl := 10 * time.Minute
-	soft := 5 * time.Minute
+	soft := 6 * time.Minute
 	if run.Thorough() {
 		dl = 30 * time.Minute
 		soft = 13 * time.Minute
@@ -688,9 +728,61 @@ func main() {
 	if os.Getenv("C27_DEADLINE") == "" {
 		os.Setenv("C27_DEADLINE", fmt.Sprint(time.Now().Add(soft).Unix()))
 	}
+	os.Setenv("C27_OPSFILE", opsFile)
+	os.Setenv("C27_TOP", fmt.Sprint(os.Getpid()))
+	defer os.Remove(opsFile)
 	nproc := 0
 	fmt.Sscan(os.Getenv("C27_NPROC"), &nproc)
+	var jobs []string
+	for i := 0; i < len(dom.hist); i += batchA {
+		jobs = append(jobs, fmt.Sprintf("A:%d", i))
+	}
 	run.Parallel(jobs, nproc, dl, nil)
+	// collect the reference operation lists, drop the per-job extras from the evidence
+	all := map[string][]string{}
+	if pj, ok := run.Coverage["per_job"].(map[string]any); ok {
+		for _, ex := range pj {
+			m, _ := ex.(map[string]any)
+			for k, v := range m {
+				if !strings.HasPrefix(k, "ops_") {
+					continue
+				}
+				var ops []string
+				if l, ok := v.([]any); ok {
+					for _, o := range l {
+						ops = append(ops, fmt.Sprint(o))
+					}
+				}
+				all[strings.TrimPrefix(k, "ops_")] = ops
+			}
+		}
+	}
+	delete(run.Coverage, "per_job")
+	b, _ := json.Marshal(all)
+	if err := os.WriteFile(opsFile, b, 0o644); err != nil {
+		fmt.Fprintln(os.Stderr, "cannot write", opsFile, err)
+		os.Exit(2)
+	}
+	// chunk-major order: if the soft deadline stops the run, every history has had its first chunks
+	jobs = nil
+	for lo, more := 0, true; more; lo += chunkK {
+		more = false
+		for hi := range dom.hist {
+			ops := all[fmt.Sprint(hi)]
+			if lo >= len(ops) {
+				continue
+			}
+			more = true
+			hiK := lo + chunkK
+			if hiK > len(ops) {
+				hiK = len(ops)
+			}
+			jobs = append(jobs, fmt.Sprintf("B:%d:%d:%d", hi, lo, hiK))
+		}
+	}
+	run.Parallel(jobs, nproc, dl, nil)
+	os.Remove(opsFile)
+	sweepScratch()
 	finishEvidence(run, dom)
 }
 
@@ -701,11 +793,12 @@ func pastDeadline() bool {
 	return dl > 0 && time.Now().Unix() > dl
 }
 
-func (c *checker) history(dom domain, h []Step) {
+// historyA: Part A of one history; returns the passive-folder operations of its last step.
+func (c *checker) historyA(h []Step) []string {
 	run := c.run
 	if pastDeadline() {
 		run.NotExhaustive(fmt.Sprintf("soft deadline reached: history [%s] not run", histString(h)))
-		return
+		return nil
 	}
 	run.Add("histories", 1)
 	ops, clean := c.partA(h)
@@ -714,16 +807,29 @@ func (c *checker) history(dom domain, h []Step) {
 		run.Sample(map[string]any{"history": histString(h), "passive_ops_in_last_step": ops})
 	}
 	if !clean && ops == nil {
-		return
+		return nil
 	}
 	run.Add("passive_ops_enumerated", int64(len(ops)))
-	for k := range ops {
+	return ops
+}
+
+// historyBC: Part B and C for fault positions lo..hi-1 of history h.
+func (c *checker) historyBC(dom domain, h []Step, ops []string, lo, hi int) {
+	run := c.run
+	for k := lo; k < hi; k++ {
 		if pastDeadline() {
-			run.NotExhaustive(fmt.Sprintf("soft deadline reached: fault positions %d..%d of history [%s] and later histories of this job not run", k, len(ops)-1, histString(h)))
+			run.NotExhaustive(fmt.Sprintf("soft deadline reached: fault positions %d..%d of history [%s] not run", k, hi-1, histString(h)))
 			return
 		}
 		run.Add("fault_cases", 1)
 		c.partBC(h, k, ops, dom.variants)
+	}
+}
+
+// history: everything for one history in this process (debug aid).
+func (c *checker) history(dom domain, h []Step) {
+	if ops := c.historyA(h); len(ops) > 0 {
+		c.historyBC(dom, h, ops, 0, len(ops))
 	}
 }
 
